@@ -4,6 +4,7 @@ import (
 	"go/ast"
 	"go/token"
 	"go/types"
+	"strings"
 
 	"zverif/checker/an"
 )
@@ -57,6 +58,41 @@ func c35(p *an.Prog, r *an.R, tier string) {
 				"index.builderWriteAll/os.Remove/error-discarded-in-defer":           "best-effort removal of the temp file on error paths",
 			},
 		})
+	}
+	// helpers extracted from those functions: a function of the same package, called from one of them,
+	// that removes or renames files is held to the same discipline
+	{
+		rm, rn := p.ExtFunc("os", "Remove"), p.ExtFunc("os", "Rename")
+		listed := map[*types.Func]bool{}
+		for _, fn := range []struct{ pkg, name string }{{cmdPkg, "merge"}, {cmdPkg, "mergeCmd"}, {cmdPkg, "explodeCmd"}, {"index", "Explode"}, {"index", "Merge"}, {"index", "builderWriteAll"}} {
+			if f := p.Func(fn.pkg, fn.name); f != nil {
+				listed[f] = true
+			}
+		}
+		seenH := map[*types.Func]bool{}
+		for f := range listed {
+			d := p.Decl(f)
+			if d == nil || d.Decl.Body == nil {
+				continue
+			}
+			ast.Inspect(d.Decl.Body, func(n ast.Node) bool {
+				c, ok := n.(*ast.CallExpr)
+				if !ok {
+					return true
+				}
+				h := an.Callee(d.Pkg.TypesInfo, c)
+				if h == nil || listed[h] || seenH[h] || h.Pkg() != f.Pkg() {
+					return true
+				}
+				hd := p.Decl(h)
+				if hd == nil || hd.Decl.Body == nil || len(an.CallsTo(hd.Pkg.TypesInfo, hd.Decl.Body, true, rm, rn)) == 0 {
+					return true
+				}
+				seenH[h] = true
+				errDiscipline(p, r, "C35.R1", h, errOpts{swallowOK: errFallbackOK})
+				return true
+			})
+		}
 	}
 	// main: every error returned by mergeCmd/explodeCmd is fatal
 	if md := p.Decl(p.Func(cmdPkg, "main")); r.Anchor(md != nil, cmdPkg+".main") {
@@ -114,13 +150,26 @@ func c35Order(p *an.Prog, r *an.R, pkg, name string) {
 	info := d.Pkg.TypesInfo
 	g := an.NewG(info, d.Decl.Body)
 	isRename := g.HasCallTo(rename)
-	isRemove := g.HasCallTo(remove)
+	// functions of the same package whose body removes files: a call to one of them is a removal site
+	var removers []*types.Func
+	removers = append(removers, remove)
+	helperBodies := map[*types.Func]*an.DeclInfo{}
+	p.AllDecls(func(hf *types.Func, hd *an.DeclInfo) {
+		if hd.Pkg != d.Pkg || hf == f || hd.Decl.Body == nil || strings.HasSuffix(p.Fset.Position(hd.Decl.Pos()).Filename, "_test.go") {
+			return
+		}
+		if len(an.CallsTo(info, d.Decl.Body, false, hf)) > 0 && len(an.CallsTo(hd.Pkg.TypesInfo, hd.Decl.Body, false, remove)) > 0 && len(an.CallsTo(hd.Pkg.TypesInfo, hd.Decl.Body, false, rename)) == 0 {
+			removers = append(removers, hf)
+			helperBodies[hf] = hd
+		}
+	})
+	isRemove := g.HasCallTo(removers...)
 	renames := g.Locs(func(n ast.Node) bool { return len(an.CallsTo(info, n, false, rename)) > 0 })
 	removes := g.Locs(func(n ast.Node) bool {
 		if _, isDefer := n.(*ast.DeferStmt); isDefer {
 			return false
 		}
-		return len(an.CallsTo(info, n, false, remove)) > 0
+		return len(an.CallsTo(info, n, false, removers...)) > 0
 	})
 	if !r.Anchor(len(renames) > 0 && len(removes) > 0, fname+"/rename and remove sites") {
 		return
@@ -150,6 +199,9 @@ func c35Order(p *an.Prog, r *an.R, pkg, name string) {
 			return true
 		})
 		isHead := func(l an.Loc) bool {
+			if len(removers) > 1 && len(an.CallsTo(info, g.Node(l), false, removers[1:]...)) > 0 {
+				return true // the removal loop lives in the helper
+			}
 			for _, h := range loopHeads {
 				if g.Node(l) == ast.Node(h) || (g.Node(l).Pos() <= h.Pos() && h.End() <= g.Node(l).End()) {
 					return true
@@ -163,56 +215,63 @@ func c35Order(p *an.Prog, r *an.R, pkg, name string) {
 			"the rename that publishes the output is reachable without passing the removal of the inputs: input and output shards are visible together")
 		_ = isRename
 	}
-	// removal order of IndexFilePaths' result
+	// removal order of IndexFilePaths' result (in the function itself and in its removal helpers)
 	n := 0
-	ast.Inspect(d.Decl.Body, func(nd ast.Node) bool {
-		if _, isLit := nd.(*ast.FuncLit); isLit {
-			return false
-		}
-		var body *ast.BlockStmt
-		reversed := false
-		switch x := nd.(type) {
-		case *ast.RangeStmt:
-			body = x.Body
-			// slices.Backward(paths) / reversed copies
-			ast.Inspect(x.X, func(m ast.Node) bool {
-				if c, ok := m.(*ast.CallExpr); ok {
-					if cal := an.Callee(info, c); cal != nil && (cal.Name() == "Backward" || cal.Name() == "Reverse") {
-						reversed = true
+	scanBodies := []*ast.BlockStmt{d.Decl.Body}
+	for _, hd := range helperBodies {
+		scanBodies = append(scanBodies, hd.Decl.Body)
+	}
+	for _, scanBody := range scanBodies {
+		scanBody := scanBody
+		ast.Inspect(scanBody, func(nd ast.Node) bool {
+			if _, isLit := nd.(*ast.FuncLit); isLit {
+				return false
+			}
+			var body *ast.BlockStmt
+			reversed := false
+			switch x := nd.(type) {
+			case *ast.RangeStmt:
+				body = x.Body
+				// slices.Backward(paths) / reversed copies
+				ast.Inspect(x.X, func(m ast.Node) bool {
+					if c, ok := m.(*ast.CallExpr); ok {
+						if cal := an.Callee(info, c); cal != nil && (cal.Name() == "Backward" || cal.Name() == "Reverse") {
+							reversed = true
+						}
+					}
+					return true
+				})
+			case *ast.ForStmt:
+				body = x.Body
+				if post, ok := x.Post.(*ast.IncDecStmt); ok && post.Tok == token.DEC {
+					reversed = true
+				}
+			default:
+				return true
+			}
+			if len(an.CallsTo(info, body, false, remove)) == 0 {
+				return true
+			}
+			// does the loop remove elements of a variable assigned from IndexFilePaths?
+			fromIFP := false
+			ast.Inspect(nd, func(m ast.Node) bool {
+				if id, ok := m.(*ast.Ident); ok {
+					if o := info.ObjectOf(id); o != nil && assignedFrom(info, scanBody, o, ifp) {
+						fromIFP = true
 					}
 				}
 				return true
 			})
-		case *ast.ForStmt:
-			body = x.Body
-			if post, ok := x.Post.(*ast.IncDecStmt); ok && post.Tok == token.DEC {
-				reversed = true
+			if !fromIFP {
+				return true
 			}
-		default:
-			return true
-		}
-		if len(an.CallsTo(info, body, false, remove)) == 0 {
-			return true
-		}
-		// does the loop remove elements of a variable assigned from IndexFilePaths?
-		fromIFP := false
-		ast.Inspect(nd, func(m ast.Node) bool {
-			if id, ok := m.(*ast.Ident); ok {
-				if o := info.ObjectOf(id); o != nil && assignedFrom(info, d.Decl.Body, o, ifp) {
-					fromIFP = true
-				}
-			}
+			n++
+			r.Check(!reversed, "C35.R2", fname+"/IndexFilePaths-removed-in-order", nd.Pos(),
+				"the files named by IndexFilePaths are removed in the order returned (shard, then .meta)",
+				"the files named by IndexFilePaths are removed in reverse: the .meta sidecar (tombstones) goes before the shard, so a failure or kill in between leaves the shard loadable without its tombstones and tombstoned repositories re-appear next to their re-indexed copies")
 			return true
 		})
-		if !fromIFP {
-			return true
-		}
-		n++
-		r.Check(!reversed, "C35.R2", fname+"/IndexFilePaths-removed-in-order", nd.Pos(),
-			"the files named by IndexFilePaths are removed in the order returned (shard, then .meta)",
-			"the files named by IndexFilePaths are removed in reverse: the .meta sidecar (tombstones) goes before the shard, so a failure or kill in between leaves the shard loadable without its tombstones and tombstoned repositories re-appear next to their re-indexed copies")
-		return true
-	})
+	}
 	r.Floor("C35.R2."+name+".IndexFilePaths-removal-loops", 1, n)
 }
 
